@@ -34,7 +34,13 @@ TRAIN_FILES = ("vaporetto/src/trainer.rs", "vaporetto/src/tag_trainer.rs")
 
 def run(chk):
     w = C.world_for(chk)
+    from . import c01_absent as _abs
+    _abs.run(chk, w)
     c06.r068(chk, w)
+    # "every returned model ... predicts and tags any text without panicking": the bounds obligations of the unchecked code
+    # (C18) are necessary conditions of that clause for trained models as for any other model
+    from . import c18 as _c18
+    _c18.run(chk)
     for rid, txt in (("R11.1", "no unguarded unwrap of a data-dependent lookup in the trainers"), ("R11.2", "= R06.4 + R09.1"),
                      ("R11.3", "quantisation constants, shared multiplier, non-zero divisor"), ("R11.4", "error discipline in training")):
         chk.rule(rid, txt)
